@@ -451,6 +451,7 @@ type tally struct {
 	power    map[string]map[string]*big.Int // nft -> owner -> power
 	total    *big.Int
 	active   map[int]bool
+	pw       map[int]*big.Int // power of each active validator
 }
 
 func valIndex(tok string) int {
@@ -469,6 +470,7 @@ func computeTally(s *State) *tally {
 	// power as the chain defines it: tokens / power reduction, or 1 for every validator that has any under constant reward;
 	// total bonded power is the sum over the bonded, unjailed validators
 	pw := map[int]*big.Int{}
+	t.pw = pw
 	t.total = big.NewInt(0)
 	for i, v := range s.Vals {
 		if v.Bonded && !v.Jailed {
@@ -1193,6 +1195,46 @@ func monC14(tr *Trace, br map[string]int) (out []Violation) {
 			credited.Add(credited, new(big.Int).Sub(b, a))
 			if new(big.Int).Mul(dd, one).Cmp(credited) != 0 {
 				out = append(out, viol("C14", "credit-mismatch", c.i, "distribution account received %s %s but was credited liabilities of %s/10^18", dd, d, credited))
+			}
+			// "in proportion to their voting power, rounded down": a rewarded validator that is not pro bono is never credited more
+			// than its exact share pool * w / W of what the pool held
+			if dd.Sign() > 0 && isTally(c.pre) {
+				t := computeTally(c.pre)
+				charged := map[int]bool{}
+				for i, es := range t.revealed {
+					for e := range es {
+						if acc, ok := t.accepted[e.nft]; !ok || acc != e.owner {
+							charged[i] = true
+						}
+					}
+				}
+				W := big.NewInt(0)
+				for i := range c.pre.Vals {
+					if t.active[i] && !charged[i] {
+						W.Add(W, t.pw[i])
+					}
+				}
+				pool := c.pre.BalOf("pool", d)
+				for i, v := range c.pre.Vals {
+					if !t.active[i] || charged[i] || (v.Probono != "" && v.Probono != "-") || W.Sign() == 0 {
+						continue
+					}
+					k := fmt.Sprintf("v%d|%s", i, d)
+					a, b := c.pre.Outst[k], c.post.Outst[k]
+					if a == nil {
+						a = big.NewInt(0)
+					}
+					if b == nil {
+						b = big.NewInt(0)
+					}
+					got := new(big.Int).Sub(b, a) // in 10^-18 units
+					lhs := new(big.Int).Mul(got, W)
+					rhs := new(big.Int).Mul(new(big.Int).Mul(pool, t.pw[i]), one)
+					br["c14:share-checked"]++
+					if lhs.Cmp(rhs) > 0 {
+						out = append(out, viol("C14", "share-above-proportion", c.i, "validator v%d (power %s of %s) credited %s/10^18 %s from a pool of %s: more than its proportional share", i, t.pw[i], W, got, d, pool))
+					}
+				}
 			}
 			if dd.Sign() > 0 {
 				br["c14:reward-paid"]++
